@@ -30,8 +30,10 @@ CONSTANTS MaxNodes, MaxEdges
 Mutable == {"list", "dict", "set"}
 \* "structsum": base + struct(f = child) where base is a struct the host froze before (a value built by an operator from
 \* an already frozen operand is a new, unfrozen value)
-Composite == {"tuple", "struct", "structsum", "default", "closure", "mutclosure", "rebclosure", "bound"}
-Flagged == Mutable \cup {"struct", "structsum", "closure", "mutclosure", "rebclosure"}   \* closure: the flag of its cell
+\* "boxreb": a list holding a closure, frozen EARLY by the host as a whole; the enclosing function then rebinds the
+\* closure's captured variable to the child (the flag of the list must not hide what became reachable afterwards)
+Composite == {"tuple", "struct", "structsum", "default", "closure", "mutclosure", "rebclosure", "boxreb", "bound"}
+Flagged == Mutable \cup {"struct", "structsum", "closure", "mutclosure", "rebclosure", "boxreb"}   \* closure: the flag of its cell
 
 VARIABLES kind,      \* sequence of node kinds, node n = kind[n]
           edges,     \* set of <<a, b>>
